@@ -918,7 +918,7 @@ func checkC20(c *Ctx) {
 		// confirm on a fresh server: the run this event belongs to is re-executed from its seed
 		again, msg := rerunRobust(e)
 		if again == nil {
-			c.Inconclusive("C20: %s %s (%s) was rejected (kind=%s code=%d intact=%v) but could not be reproduced: %s; request: %.300s", e.Sys, e.Class, e.Engine, e.Kind, e.Code, e.DataIntact, msg, e.Req)
+			c.Unreproduced("C20: %s %s (%s) was rejected (kind=%s code=%d intact=%v) but could not be reproduced: %s; request: %.300s", e.Sys, e.Class, e.Engine, e.Kind, e.Code, e.DataIntact, msg, e.Req)
 			continue
 		}
 		e = *again
